@@ -5,7 +5,7 @@
    decoded structure (operands in source order, kinds, labels, conditions) equals the model is checked on
    every run by decoding the implementation's graph against the model (run/lib/graphspec.check_structure)
    and by the correspondence with [wbuild]; it is not a theorem. *)
-From Verif Require Import Base.Str Base.Outcome Model.Ast Model.Printer Model.WGraph Proofs.WGraphProofs.
+From Verif Require Import Base.Str Base.Outcome Model.Ast Model.Printer Model.WGraph Spec.GraphWeights Proofs.WGraphProofs Proofs.BuilderFresh.
 
 (* 1. a type, relation, referenced userset or wildcard never gets two nodes *)
 Theorem C10_one_node_per_label : forall m g, wbuild m = Ok g -> NoDup (map n_id (g_nodes g)).
@@ -49,3 +49,9 @@ Proof. exact wbuild_no_panic. Qed.
 Example C10_example :
   count_ops (UUnion [UThis ThisEmpty; UInter [UComputed (lit "a"); UComputed (lit "b")]]) = 2.
 Proof. reflexivity. Qed.
+
+(* what the builder hands to AssignWeights, for every model: no node or edge carries a weight or a wildcard list
+   yet (wildcard nodes name their own type), and every edge is filed under its source node *)
+Theorem C10_built_graph_is_unweighted : forall m g, wbuild m = Ok g ->
+  unweighted g /\ (forall x e, In e (edges_from g x) -> e_from e = x).
+Proof. exact wbuild_unweighted. Qed.
